@@ -226,6 +226,13 @@ func (s *Service) attestationData(ctx context.Context,
 		}
 		return
 	}
+	if attestationData.Source == nil {
+		errCh <- &attestationDataError{
+			provider: name,
+			err:      errors.New("attestation data source nil"),
+		}
+		return
+	}
 	if attestationData.Target.Epoch != s.chainTime.SlotToEpoch(opts.Slot) {
 		errCh <- &attestationDataError{
 			provider: name,
